@@ -13,7 +13,7 @@ package main
 //     observable: the entries in the irclog store after the restore, and the sessions).
 //
 // One round = one FSM on fresh directories; all payloads (every message x {protobuf, JSON}) are
-// applied at consecutive indexes from a base index.  Rounds = mode {protobuf, JSON, JSON snapshot
+// applied at consecutive indexes from a base index.  Rounds = mode {protobuf, JSON, protobuf snapshot restored by a JSON node, JSON snapshot
 // restored by a protobuf node} x base index x term x extensions x append time x compaction cut
 // {1000ns (some entries compacted), 0 (all retained)}; full cartesian product.
 // The compaction cut is pinned through the repository's own -canary_compaction_start flag, no
@@ -350,7 +350,7 @@ func TestVerifC18FSM(t *testing.T) {
 	defer func() { robust.MessageOffset = 0 }()
 	offsets := []uint64{0, 4648398125000000000} // 0 and the default of -robustirc_message_offset
 
-	modes := []string{"protobuf", "JSON", "JSON snapshot restored with protobuf"}
+	modes := []string{"protobuf", "JSON", "JSON snapshot restored with protobuf", "protobuf snapshot restored with JSON"}
 	bases := []uint64{1, 7, 1 << 40}
 	terms := []uint64{0, 3}
 	exts := [][]byte{nil, {1, 2, 0, 255}, {}}
@@ -407,7 +407,7 @@ func TestVerifC18FSM(t *testing.T) {
 		}
 		*raftDir = dir
 		robust.MessageOffset = rd.offset
-		*useProtobuf = rd.mode == "protobuf"
+		*useProtobuf = rd.mode == "protobuf" || rd.mode == "protobuf snapshot restored with JSON"
 		// compactionEnd = Unix(0, canaryCompactionStart) - (sessionExpiration + expireSessionsInterval) = Unix(0, cut)
 		*canaryCompactionStart = rd.cutNano + int64(exp+expireSessionsInterval)
 		compactionEnd := time.Unix(0, rd.cutNano)
@@ -615,6 +615,10 @@ func TestVerifC18FSM(t *testing.T) {
 		if rd.mode == "JSON snapshot restored with protobuf" {
 			*useProtobuf = true
 		}
+		if rd.mode == "protobuf snapshot restored with JSON" {
+			// rolling upgrade: a node that still runs with the legacy encoding gets the snapshot of an upgraded one
+			*useProtobuf = false
+		}
 		snaps, err := fss.List()
 		if err != nil || len(snaps) == 0 {
 			t.Fatalf("round %s: no snapshot listed: %v", rd, err)
@@ -652,7 +656,7 @@ func TestVerifC18FSM(t *testing.T) {
 			}
 			res.Restored++
 			c.storeReaders(fsm.ircstore, "Persist+Restore ("+rd.mode+")", e, raw2, converted)
-			if rd.mode == "protobuf" && !bytes.Equal(raw2, e.raw) {
+			if (rd.mode == "protobuf" || rd.mode == "protobuf snapshot restored with JSON") && !bytes.Equal(raw2, e.raw) {
 				c.report("entry restored from a protobuf snapshot is not byte-identical to the stored entry", fmt.Sprintf("round %s: %s: stored %x, restored %x", rd, vC18ShowLog(e.log), e.raw, raw2), vC18ShowLog(e.log))
 			}
 		}
@@ -687,6 +691,34 @@ func TestVerifC18FSM(t *testing.T) {
 		} else {
 			w, src := wantRows(true, false)
 			c.compareDump("dump of the restored entries", rd, recs, w, src)
+		}
+		// ---- reader: the decoding loop of Snapshot on the entries written by Restore (a second snapshot on
+		// the restored node that folds everything old enough): every CreateSession entry it folds must be
+		// in the state it produces
+		*canaryCompactionStart = math.MaxInt64 / 2
+		compactionEnd2 := time.Unix(0, *canaryCompactionStart).Add(-(fsm.sessionExpirationDur + expireSessionsInterval))
+		snap2, err := fsm.Snapshot()
+		if err != nil {
+			c.report("FSM.Snapshot fails on entries written by Restore", fmt.Sprintf("round %s: %v", rd, err), rd.String())
+		} else {
+			st := ircserver.NewIRCServer(*network, time.Unix(0, 1))
+			if _, err := st.Unmarshal(snap2.(*robustSnapshot).state); err != nil {
+				c.report("state of a snapshot taken on a restored node cannot be loaded", fmt.Sprintf("round %s: %v", rd, err), rd.String())
+			} else {
+				folding := true
+				for _, e := range entries {
+					if e.retained && e.msg.Timestamp().After(compactionEnd2) {
+						folding = false // Snapshot stops at the first entry that is too new
+					}
+					if e.msg.Type != robust.CreateSession || (e.retained && !folding) {
+						continue
+					}
+					res.Evaluations++
+					if _, err := st.GetSession(e.msg.Id); err != nil {
+						c.report("session of a CreateSession entry is missing from the state of a snapshot taken on the restored node", fmt.Sprintf("round %s: %s (%s): want session %d.%d: %v", rd, vC18ShowLog(e.log), e.payload, e.msg.Id.Id, e.msg.Id.Reply, err), vC18ShowLog(e.log))
+					}
+				}
+			}
 		}
 		if len(res.Samples) < 3 {
 			e := entries[firstRetained]
